@@ -10,6 +10,7 @@ import (
 	"sort"
 	"strings"
 	"sync"
+	"sync/atomic"
 	"time"
 
 	"golang.org/x/tools/go/packages"
@@ -258,6 +259,7 @@ func main() {
 		fr.Obligations = n
 		rep.Funcs = append(rep.Funcs, fr)
 	}
+	genSecs := time.Since(t0).Seconds()
 	// solve in parallel
 	qdir := filepath.Join(*out, "queries")
 	_ = os.MkdirAll(qdir, 0o755)
@@ -275,19 +277,21 @@ func main() {
 			if expectSat && tmo > 3 {
 				tmo = 3
 			}
+			tb := time.Now()
 			best, all, file := solveOb(o, qdir, tmo, *tier == "thorough" && !expectSat, expectSat)
+			atomic.AddInt64(&statBuildNs, int64(time.Since(tb)))
 			r := ObResult{Func: o.Func, Name: o.Name, Kind: o.Kind, Props: o.Props, Status: best.Status, Solver: best.Solver, Secs: best.Secs, Pos: o.Pos, MustFail: o.MustFail, Cover: o.Cover, File: file}
-			if *tier == "thorough" {
+			if true {
 				var ag []string
 				for _, x := range all {
-					ag = append(ag, x.Solver+"="+x.Status)
+					ag = append(ag, fmt.Sprintf("%s=%s(%.1fs)", x.Solver, x.Status, x.Secs))
 				}
 				r.Agree = strings.Join(ag, ",")
 			}
 			good := (best.Status == "unsat" && !expectSat) || (expectSat && best.Status != "unsat")
 			if !*dump {
 				base := o.Func + "__" + o.Name
-				for _, suf := range []string{"", ".ground", ".lite"} {
+				for _, suf := range []string{"", ".ground", ".lite", ".tight"} {
 					p := queryPath(qdir, base+suf)
 					if good || p != file {
 						os.Remove(p)
@@ -333,6 +337,9 @@ func main() {
 	}
 	for _, m := range rep.Missing {
 		fmt.Printf("MISSING contract target %s\n", m)
+	}
+	if os.Getenv("GVC_STATS") != "" {
+		fmt.Printf("gvc: time in solveOb (sum over workers) %.1fs, of which solver processes %.1fs; generation %.1fs\n", float64(statBuildNs)/1e9, float64(statSolveNs)/1e9, genSecs)
 	}
 	fmt.Printf("gvc: property=%s functions=%d obligations=%d ok=%d failed=%d wall=%.1fs out=%s\n", *prop, len(rep.Funcs), len(results), okN, badN, rep.WallS, *out)
 }
